@@ -400,9 +400,6 @@ theorem Accepts.mono {r r' s} (h : Accepts r s) (hs : sub r r' = true) : Accepts
 
 /-! ## what is consumed -/
 
-/-- the part of `s` that is read when `t` is left -/
-def consumed (s t : List Char) : List Char := s.take (s.length - t.length)
-
 theorem consumed_append (w t : List Char) : consumed (w ++ t) t = w := by
   simp [consumed]
 
